@@ -8,7 +8,8 @@ SPEC = dict(
          "truncation of each, 1-3 bit flips, every declared length (|j|, z, |c|; |o|, |w|, z, s, |c| of the standard header) overwritten "
          "with boundary and huge values (2^32-1, 2^32, 2^56.., 2^63, 0x5555555555555556, 2^64-1) and values around the true ones, "
          "declared lengths exceeding the data, appended garbage, random bytes, arguments of Z_I-1..Z_I+Z_Z+1 bytes, z up to 4096 pages "
-         "(65535 in thorough). Compared with the extracted Go-shaped model (repaired shape): accept/reject, instruction and block counts, "
+         "(65535 in thorough); assembled programs that load 64-bit (start, length) pairs at the 2^64 / 2^32 wrap boundaries into the pointer/"
+         "length registers of a halt, log, machine or export call (outcome and output length predicted by the model's range check). Compared with the extracted Go-shaped model (repaired shape): accept/reject, instruction and block counts, "
          "jump-table fields, page count, heap pointer/limit, machine's result register, the halt output of the refine program; the model "
          "never predicts a Go panic. Per case the runtime.MemStats.TotalAlloc delta of the call must be <= 21/20 of the model's exact "
          "allocation account + a fixed slack (512 B; + declared/32 for the page map's buckets; + declared + 8 KiB for a run) and the "
@@ -47,7 +48,9 @@ MANIFEST = dict(
          "which every Go index/slice expression is an option (bounds = length resp. CAPACITY) and every loop has fuel: for ALL byte strings "
          "below 2^32-64 bytes with any spare capacity behind them and ALL argument lengths the loading half of Psi_M ends in accept or the "
          "defined reject - never a Go panic, never out of fuel; an accepted program holds only register indices < 13 where its handlers "
-         "index the register file, and every dynamic-jump lookup on it is defined. The same statement is proved FALSE of the code as found "
+         "index the register file, and every dynamic-jump lookup on it is defined; the guest-range check (isReadable/isWriteable) accepts a "
+         "non-empty range only if start+len <= 2^32 without wrap-around and every touched page passed the access test, for all 64-bit "
+         "register values, so the halt-output buffer is <= 2^32 (the wrapping-sum form of the check is refuted). The same statement is proved FALSE of the code as found "
          "(4 witnesses replayed on the Go code; repaired by proposed_fixes/C03-01..04, the theorems are about the repaired shape). "
          "Gas: every step after which the machine continues costs exactly one unit, so Psi and the Psi_H loop (any host that never adds "
          "gas) end within gas+1 steps (over Model/PvmRun.v). Allocation: the model's account of every make / &T{} / append while loading "
